@@ -73,6 +73,9 @@ def payloads(rng, tier):
     # complete accessors of higher order: checked against the vectorised shift formula (no model call: 4^k rows)
     for k in range(6, {"quick": 10, "thorough": 11, "search": 8}[tier] + 1):
         yield "complete_big", {"k": k}
+    # ... and with progress output switched on (every order: the progress path may be written differently)
+    for k in range(1, {"quick": 8, "thorough": 9, "search": 8}[tier] + 1):
+        yield "complete_big", {"k": k, "verbose": 1}
     # the functions must still be right after graphs have been generated in the same process (shared / cached state)
     for _ in range({"quick": 12, "thorough": 120, "search": 6}[tier]):
         k = rng.randint(1, 4)
@@ -86,13 +89,18 @@ def build(stream, p):
     km = kmer(v, k)
     if stream == "complete_big":
         def run_big():
-            a = own(dsw.get_complete_accessor(observed_length=k))
+            if p.get("verbose"):
+                import contextlib, io
+                with contextlib.redirect_stdout(io.StringIO()):
+                    a = own(dsw.get_complete_accessor(observed_length=k, verbose=True))
+            else:
+                a = own(dsw.get_complete_accessor(observed_length=k))
             n = 4 ** k
             rows = np.arange(n, dtype=np.int64).reshape(-1, 1)
             want = (4 * rows + np.arange(4, dtype=np.int64).reshape(1, -1)) % n
             return a.shape == (n, 4) and bool((np.asarray(a, dtype=np.int64) == want).all())
         return Case(stream, p, None, lambda: guard(run_big, lambda r: [[int(r)]], seconds=300),
-                    lambda a, r: None if r is True else "complete accessor of order %d is not the shift-successor table: %r" % (k, r),
+                    lambda a, r: None if r is True else "complete accessor of order %d%s is not the shift-successor table: %r" % (k, " (verbose)" if p.get("verbose") else "", r),
                     domain=True, nontrivial=True, tags=["k=%d" % k])
     if stream == "after_generation":
         def run_after():
